@@ -76,6 +76,30 @@ func runOne(t *testing.T, sc *Scenario, seed uint64, replay []int, wantTrace boo
 				}
 			}
 		}()
+		if sc.NoBubble {
+			k = NewK(ch)
+			k.noBubble = true
+			func() {
+				defer func() {
+					if r := recover(); r != nil {
+						switch p := r.(type) {
+						case violationPanic:
+							v := p.v
+							res.Violation = &v
+						case abortPanic:
+							res.Aborted = p.why
+						default:
+							res.Violation = &Violation{Signature: "panic/" + panicSite(), Detail: fmt.Sprintf("%v\n%s", r, debug.Stack())}
+						}
+					}
+				}()
+				sc.Run(k)
+			}()
+			for _, f := range k.cleanups {
+				f()
+			}
+			return
+		}
 		synctest.Test(t, func(t *testing.T) {
 			verifSetDet(true, seed^0x5bd1e995c3a7f11d)
 			defer verifSetDet(false, 0)
